@@ -105,6 +105,7 @@ type Interp struct {
 	// observation hooks for contract checks
 	onCall func(cl *Closure, args []Value)
 	onRet  func(cl *Closure, args []Value, res []Value)
+	nilPanics bool
 	templateData *Obj // the data object the template was executed on (set by the Execute model)
 }
 
@@ -116,8 +117,14 @@ func (it *Interp) fail(n ast.Node, format string, a ...any) {
 	panic(undecided{pos + fmt.Sprintf(format, a...)})
 }
 
-func newInterp(r *Repo) *Interp {
-	p := r.pkg("tree")
+func newInterp(r *Repo) *Interp { return newInterpFor(r, "tree") }
+
+// nilDeref is raised instead of undecided when nilPanics is set and the
+// interpreted code dereferences a nil pointer: the real code would panic.
+type nilDeref struct{ pos string }
+
+func newInterpFor(r *Repo, sub string) *Interp {
+	p := r.pkg(sub)
 	it := &Interp{info: p.TypesInfo, fset: r.Fset, pkg: p.Types, decls: map[*types.Func]*ast.FuncDecl{}, globals: map[types.Object]*Cell{},
 		out: &strings.Builder{}, hooks: map[ast.Node]func(*Interp, *Closure, []Value) ([]Value, bool){}, natives: map[string]func(*Interp, []Value) []Value{}, posOf: r.pos}
 	for _, f := range p.Syntax {
@@ -736,6 +743,13 @@ func (it *Interp) fieldCell(at ast.Node, base Value, path []int) *Cell {
 			cur = p.cell.v
 		}
 		o, ok := cur.(*Obj)
+		if _, isNil := cur.(Nil); isNil && it.nilPanics {
+			pos := ""
+			if at != nil && it.posOf != nil {
+				pos = it.posOf(at.Pos())
+			}
+			panic(nilDeref{pos})
+		}
 		if !ok || o == nil {
 			it.fail(at, "field access on %s (nil pointer dereference in the emitter on this model?)", describe(cur))
 		}
